@@ -59,7 +59,8 @@ static void wp_post(TcpEngine *self, Session *s, const Session *s0p, const TcpEn
     __CPROVER_assert(s->wq.n == 0 || s->wantWrite, "S4 queue non-empty => wantWrite stays set");
     __CPROVER_assert(s->wq.n != 0 || (!s->wantWrite && G_ep_op == EPOLL_CTL_MOD && G_ep_fd == s->fd && (G_ep_events & EPOLLIN) != 0),
                      "S4b queue drained => write wish withdrawn, interest mask refreshed with EPOLLIN");
-    __CPROVER_assert(s->wq.n != 0 || s->connectPending || (G_ep_events & EPOLLOUT) == 0, "S4c queue drained => EPOLLOUT no longer registered (no busy loop)");
+    __CPROVER_assert(s->wq.n != 0 || s->connectPending || (s->tlsState == TlsState_Open && s->tlsWantWrite) || (G_ep_events & EPOLLOUT) == 0,
+                     "S4c queue drained => EPOLLOUT no longer registered (no busy loop), unless a connect is pending or OpenSSL itself wants to write");
     __CPROVER_assert(SESSION_FRAME_OK(s, s0) && s->lastActivity == s0.lastActivity, "FR session fields outside the write state are unchanged");
     if (s->wq.n > 0) { IORA_CANARY("writePending: still queued"); } else { IORA_CANARY("writePending: drained"); }
   }
